@@ -35,7 +35,7 @@ T = {
  "C10-s2": ("C10", "flush()/into_inner() with an opened-but-empty known-size master and an empty buffer", "NOT CAUGHT by a registered check: c10_flush_closes_empty_master finds it (see runs) but the public flush() cannot be proved on the correct tree (out of memory), so it is not registered"),
  "C11-s1": ("C11", "same change as C02-s2", "c11_vtree_root_a_uk, c11_vtree_root_a_b_ukk"),
  "C11-s2": ("C11", "global placeholder with min >= 1 and fewer masters open than min", "c11_validate_p1_c0, c11_validate_p2_c1"),
- "C14-s1": ("C14", ">= 2 junk bytes of a long-id class close to the end of input", "c14_recover_junk2 (thorough tier only); quick: not caught"),
+ "C14-s1": ("C14", ">= 2 junk bytes of a long-id class close to the end of input", "NOT CAUGHT: needs >= 2 junk bytes; c14_recover_junk2 did not finish within 25 min and is not registered"),
  "C14-s2": ("C14", "run of >= 8 zero bytes before a 1-byte id", "hdr_flat_full (zero first byte accepted as id padding: assertion tagged C13/C03/C14)"),
  "C18-s1": ("C18", "easy_ebml! declaration with a placeholder (-N)", "c18_tables_d2"),
  "C18-s2": ("C18", "path of depth >= 3 whose grand-parent is not a master / misaligned", "OUTSIDE THE CLAIM: compile-error half of C18 (only rustc observes it); demo confirmed by the sub-agent only"),
